@@ -40,6 +40,10 @@ HOSTILE_PATH_NAMES = ["simplify", "parts", "get_data", "to_part_specs", "to_json
                       "from_spec", "resolve_implicit_types", "source_data", "DATUM_TYPE", "MULTI_TYPE", "__class__",
                       "__len__", "_copy_with_datum_type", "mro"]
 RANDOM_NAMES = ["equals", "eq_", "lessthan", "foo", "value", "keys", "Len", "size", "x", "", " ", "equal_to ", "in__"]
+# names that only look like (or casefold / NFKC-normalise to) a known one: not the known name
+LOOKALIKE_CALLABLES = ["fal\u017fy", "i\u017f_instance", "key\u017f_contain", "le\u017f\u017f_than", "equal_t\u03bf", "\uff54\uff52\uff55\uff54\uff48\uff59",
+                       "\ufb01rst", "la\u017ft", "\u0131n", "\u017fingle"]
+LOOKALIKE_TYPES = ["\u017ftr", "li\u017ft", "\ufb02oat", "\uff49\uff4e\uff54", "\u0131nt", "bo\u03bfl", "d\u0131ct", "\u017dtr", "li\ufb06"]
 
 ALLOWED = ("TypeError", "ValueError", "MalformedConditionLikeSpec", "MalformedContainerItemSpec",
            "MalformedDataPathSpec", "MalformedRuleSpec")
@@ -102,6 +106,21 @@ def injectors():
 
     def add(name, entry, spec):
         out.append({"inj": name, "entry": entry, "spec": spec, "definite": True})
+    for n in LOOKALIKE_CALLABLES:
+        add("unknown-callable", "cond", {f"value.{n}": 1 if "in" not in n else [1]})
+        add("unknown-callable", "cond", {f"key.length.{n}": [1, 2]})
+        add("unknown-path-suffix", "pathspec", {f"path.{n}": ["a", {"type": "map_value"}]})
+        add("unknown-path-suffix", "pathspec", {f"path.length.{n}": ["a", {"type": "map_value"}]})
+    for n in ("map_key\u017f", "map_value\u017f", "\u0131ndex", "len\u0261th", "d\uff54ype"):
+        add("unknown-pre-processor", "cond", {f"value.{n}.equal_to": 1})
+        add("unknown-path-suffix", "pathspec", {f"path.{n}": ["a"]})
+        add("unknown-datum-kind", "cond", {f"{n}.equal_to": 1})
+    for n in ("li\u017ft_value", "li\ufb06_value", "map_\u028balue", "\uff4d\uff41\uff50_value", "map_or_li\u017ft_value"):
+        add("unknown-part-type", "part", {"type": n})
+        add("unknown-part-type", "parts", ["a", {"type": n, "value.equal_to": "b"}])
+    for n in LOOKALIKE_TYPES:
+        add("unknown-cast-type", "rule", {"path": ["a"], "condition": {"value.equal_to": 1}, "cast": {n: "int"}})
+        add("unknown-cast-type", "rule", {"path": ["a"], "condition": {"value.equal_to": 1}, "cast": {"str": n}})
     for n in RANDOM_NAMES + HOSTILE_NAMES:
         add("unknown-callable", "cond", {f"value.{n}": 1})
         add("unknown-callable", "cond", {f"value.{n}": None})
@@ -117,7 +136,7 @@ def injectors():
         if n not in ("", "Len", "length", "dtype"):
             add("unknown-path-suffix", "pathspec", {f"path.{n}": ["a"]})
             add("unknown-path-suffix", "pathspec", {f"path.length.{n}": ["a", {"type": "map_value"}]})
-    for n in ("integer", "strng", "none", "NoneType", "tuple", "set", "complex", "", "object", "number"):
+    for n in ["integer", "strng", "none", "NoneType", "tuple", "set", "complex", "", "object", "number"] + LOOKALIKE_TYPES:
         add("unknown-type-name", "cond", {"value.dtype.equal_to": n})
         add("unknown-type-name", "cond", {"value.is_instance": [n]})
         add("unknown-type-name", "cond", {"value.is_instance": ["int", n]})
